@@ -21,14 +21,15 @@ mod rig;
 #[path = "c20/script.rs"]
 mod script;
 
-use rig::{run_rep, RepEnd};
+use rig::{run_rep, run_ticks, RepEnd};
 use script::{normalise, script_from_tape, Script};
+use serde::{Deserialize, Serialize};
 
 pub fn info() -> PropertyInfo {
     PropertyInfo {
         id: "C20",
         level: "exploration",
-        rule: "case = command script (pause/resume/stop/clock advance/gate open/sample at generated moments with generated yields, spins and sleeps) over 2-4 resource threads sharing 1-2 counters and 1-3 variable pairs, repeated `reps` times against fresh threads; non-trivial = in one repetition at least 2 resources completed cycles between the first and the last command AND at least one pause() or stop() call was made while a cycle of the addressed resource was in flight (the cycle had started before the call and had not finished after it); distinct by SHA-256 of the script",
+        rule: "case = command script (pause/resume/stop/clock advance/gate open/sample at generated moments with generated yields, spins and sleeps) over 2-4 resource threads sharing 1-2 counters, 1-3 variable pairs and non-monotone state (last-writer id + sequence number, a BOOL flag, a req/sent/handled handshake), repeated `reps` times against fresh threads; plus single-threaded cases `ticks` (the same programs ticked with tick_with_shared in generated orders and in every order of 6 ticks of 2-3 runners), which never count as non-trivial; non-trivial = in one repetition at least 2 resources completed cycles between the first and the last command AND at least one pause() or stop() call was made while a cycle of the addressed resource was in flight (the cycle had started before the call and had not finished after it); distinct by SHA-256 of the script",
         assumptions: &[
             "real OS threads: interleavings are perturbed (generated yields/spins/sleeps, repetition, oversubscribed workers), not enumerated or controlled",
             "liveness is judged by progress wherever the loop gives a bound: more than 50 further loop iterations (calls of Clock::now, one per iteration) or cycle starts after pause()/resume()/stop() returned without the command showing is a violation, independent of machine speed",
@@ -137,6 +138,9 @@ fn check_script(case: &Script, probe: &mut Probe) -> Result<(), String> {
                 if st.chased {
                     probe.label("rep:wake_chased_by_subinterval_advance");
                 }
+                if st.log_truncated {
+                    probe.label("rep:cycle_log_truncated");
+                }
                 if st.pause_unobserved {
                     probe.label("rep:paused_not_seen_within_2s");
                 }
@@ -169,6 +173,38 @@ fn check_script(case: &Script, probe: &mut Probe) -> Result<(), String> {
         }
     }
     Ok(())
+}
+
+/// Case of the single-threaded sub-search: the programs of `script` (its ops are ignored), one
+/// runner per resource, ticked with `tick_with_shared` in the given order.
+#[derive(Clone, Debug, Serialize, Deserialize)]
+pub struct TickCase {
+    pub script: Script,
+    pub order: Vec<u8>,
+}
+
+fn check_ticks(case: &TickCase, probe: &mut Probe) -> Result<(), String> {
+    let Some(mut s) = normalise(&case.script) else {
+        probe.label("ticks=unusable");
+        return Ok(());
+    };
+    s.ops.clear();
+    if case.order.len() > 64 {
+        return Ok(());
+    }
+    match run_ticks(&s, &case.order) {
+        RepEnd::Ok(_) => {
+            probe.label(format!("ticks:runners={}", s.resources.len()));
+            probe.label(format!("ticks:len={}", case.order.len().min(12)));
+            Ok(())
+        }
+        RepEnd::Violation(m) => Err(format!("single-threaded tick_with_shared: {m}")),
+        RepEnd::Hang(m) | RepEnd::Infra(m) => {
+            INFRA.lock().unwrap().push(m);
+            probe.label("infra_problem");
+            Ok(())
+        }
+    }
 }
 
 /// Helper subcommands: `tpv c20-show <seed words...>` is not needed; None = not mine.
@@ -210,6 +246,67 @@ fn run(ctx: &mut RunCtx) {
     let reps: u16 = ctx.tier.pick(20, 50) as u16;
     let strat = tape_strategy(220).prop_map(move |t| script_from_tape(&t, reps));
     ctx.search("scripts", strat, ctx.tier.pick(96, 2000), check_script);
+
+    // Single-threaded, deterministic: the same programs ticked with tick_with_shared.
+    // (a) generated programs and orders
+    let tick_strat = (tape_strategy(60), proptest::collection::vec(0u8..4, 1..13))
+        .prop_map(|(t, order)| TickCase { script: script_from_tape(&t, 1), order });
+    ctx.search("ticks", tick_strat, ctx.tier.pick(240, 4000), check_ticks);
+    // (b) every order of 6 ticks of 2 and of 3 runners (the invariants are evaluated after each
+    // tick, so every shorter order is covered as a prefix), on two fixed program sets
+    if ctx.only_replay.is_none() {
+        let mut index = 0usize;
+        for variant in 0..2u32 {
+            for runners in [2usize, 3] {
+                let tape = crate::engine::tape::Tape { data: vec![0x4000_0000 * variant + 0x1000_0000; 8] };
+                let mut script = script_from_tape(&tape, 1);
+                script.ops.clear();
+                while script.resources.len() > runners {
+                    script.resources.pop();
+                }
+                while script.resources.len() < runners {
+                    let mut extra = script.resources[script.resources.len() - 2].clone();
+                    extra.producer = script.resources.len() % 2 == 0;
+                    extra.flag_val = !extra.flag_val;
+                    script.resources.push(extra);
+                }
+                for r in script.resources.iter_mut() {
+                    r.gated = false;
+                    r.fault_at = None;
+                    r.task_us = 0;
+                }
+                let total = (runners as u32).pow(6);
+                for code in 0..total {
+                    index += 1;
+                    if index % ctx.nworkers.max(1) != ctx.worker {
+                        continue;
+                    }
+                    if ctx.stats.violations.len() >= 3 {
+                        // enough evidence from this worker; every further order would only
+                        // add another VIOLATION line for the same defect
+                        break;
+                    }
+                    let mut c = code;
+                    let order: Vec<u8> = (0..6)
+                        .map(|_| {
+                            let d = (c % runners as u32) as u8;
+                            c /= runners as u32;
+                            d
+                        })
+                        .collect();
+                    let case = TickCase { script: script.clone(), order };
+                    let j = serde_json::to_value(&case).unwrap_or_default();
+                    ctx.enumerated("ticks", &j, |p| {
+                        let r = check_ticks(&case, p);
+                        if r.is_ok() {
+                            p.label("ticks:exhaustive_order");
+                        }
+                        r
+                    });
+                }
+            }
+        }
+    }
     let inc: Vec<String> = std::mem::take(&mut *INCONCLUSIVE.lock().unwrap());
     for m in inc {
         ctx.inconclusive(m);
